@@ -19,7 +19,8 @@ const SETSID: &str = "/usr/bin/setsid";
 pub fn kestrel_bin() -> PathBuf { PathBuf::from(std::env::var("KESTREL_BIN").unwrap_or_else(|_| "/verif/target/release/kestrel".into())) }
 
 #[derive(Clone, Debug)]
-pub enum In { Null, Bytes(Vec<u8>), File(PathBuf), Closed }
+pub enum In { Null, Bytes(Vec<u8>), File(PathBuf), Closed, /// a real pipe, written in pieces of the given sizes (short reads on the other side)
+    Pipe(Vec<u8>, Vec<usize>) }
 #[derive(Clone, Debug, PartialEq)]
 pub enum Out { Capture, File(PathBuf), DevFull, ClosedPipe, Null }
 #[derive(Clone, Debug)]
@@ -49,6 +50,7 @@ pub fn run(c: &Cmd) -> Run {
         In::Null | In::Closed => { cmd.stdin(Stdio::null()); }
         In::Bytes(b) => { let p = io.join("stdin"); let _ = std::fs::write(&p, b); cmd.stdin(std::fs::File::open(&p).map(Stdio::from).unwrap_or_else(|_| Stdio::null())); }
         In::File(p) => { cmd.stdin(std::fs::File::open(p).map(Stdio::from).unwrap_or_else(|_| Stdio::null())); }
+        In::Pipe(..) => { cmd.stdin(Stdio::piped()); }
     }
     let mut closed_reader = None;
     match &c.stdout {
@@ -60,6 +62,8 @@ pub fn run(c: &Cmd) -> Run {
     }
     cmd.stderr(std::fs::File::create(io.join("stderr")).map(Stdio::from).unwrap_or_else(|_| Stdio::null()));
     let mut child = match cmd.spawn() { Ok(c) => c, Err(e) => { let _ = std::fs::remove_dir_all(&io); return Run { code: None, signal: None, stdout: vec![], stderr: format!("spawn failed: {}", e).into_bytes(), timed_out: false } } };
+    let feeder = if let In::Pipe(data, sizes) = &c.stdin { child.stdin.take().map(|mut si| { let (data, sizes) = (data.clone(), sizes.clone()); std::thread::spawn(move || { use std::io::Write; let mut off = 0; let mut i = 0;
+        while off < data.len() { let n = sizes.get(i).copied().unwrap_or(usize::MAX).max(1).min(data.len() - off); if si.write_all(&data[off..off + n]).is_err() { break; } let _ = si.flush(); off += n; i += 1; if i < 64 { std::thread::sleep(std::time::Duration::from_micros(300)); } } }) }) } else { None };
     drop(cmd); // closes the parent's copy of the write end of a ClosedPipe
     if let Some(fd) = closed_reader { unsafe { libc::close(fd); } }
     // blocking wait; a shared watchdog thread kills children that outlive their deadline
@@ -67,6 +71,7 @@ pub fn run(c: &Cmd) -> Run {
     watchdog_add(pid, deadline);
     let status = child.wait().ok();
     let timed_out = watchdog_remove(pid);
+    if let Some(f) = feeder { let _ = f.join(); }
     let stdout = if c.stdout == Out::Capture { std::fs::read(io.join("stdout")).unwrap_or_default() } else { vec![] };
     let stderr = std::fs::read(io.join("stderr")).unwrap_or_default();
     let _ = std::fs::remove_dir_all(&io);
